@@ -2633,6 +2633,10 @@ class Coalescent(AbstractCoalescent, Serializable):
             the order of rewards.
         :return: The kth moment
         """
+        # the distribution returned by ``_get_dist`` is configured with the unit reward
+        if rewards is None:
+            rewards = (TreeHeightReward(),) * int(k)
+
         return self._get_dist(k, rewards).moment(
             k=k,
             rewards=rewards,
@@ -2690,6 +2694,10 @@ class Coalescent(AbstractCoalescent, Serializable):
             the order of rewards.
         :return: Accumulation of moments.
         """
+        # the distribution returned by ``_get_dist`` is configured with the unit reward
+        if rewards is None:
+            rewards = (TreeHeightReward(),) * int(k)
+
         return self._get_dist(k, rewards).accumulate(
             k=k,
             end_times=end_times,
@@ -2731,6 +2739,10 @@ class Coalescent(AbstractCoalescent, Serializable):
         :param title: Title of the plot.
         :return: Axes.
         """
+        # the distribution returned by ``_get_dist`` is configured with the unit reward
+        if rewards is None:
+            rewards = (TreeHeightReward(),) * int(k)
+
         self._get_dist(k, rewards).plot_accumulation(
             k=k,
             end_times=end_times,
